@@ -127,9 +127,10 @@ class Subroutine:
         for version_part in self.netqasm_version:
             encoding.assert_fits(version_part, encoding.IMMEDIATE)
 
+        # Encode the integer values (an int subclass can carry its value in `__int__`)
         metadata = encoding.Metadata(
-            netqasm_version=self.netqasm_version,
-            app_id=self.app_id,
+            netqasm_version=tuple(int(part) for part in self.netqasm_version),
+            app_id=int(self.app_id),
         )
         instrs = self._encoded_instructions()
         return [metadata] + [instr.serialize() for instr in instrs]
